@@ -82,13 +82,14 @@ func (r *recorder) take() []chk {
 // ---------------------------------------------------------------- environment
 
 type env struct {
-	tmp, root string
-	db        *database.DuckDB
-	raw       *sql.DB // un-sandboxed DuckDB: parse oracle (json_serialize_sql) only
-	qh        *api.QueryHandler
-	app       *fiber.App
-	rec       *recorder
-	testErrs  int
+	tmp, root   string
+	db          *database.DuckDB
+	raw         *sql.DB // un-sandboxed DuckDB: parse oracle (json_serialize_sql) only
+	qh          *api.QueryHandler
+	app         *fiber.App
+	rec         *recorder
+	testErrs    int
+	readerCache map[string]bool
 }
 
 func must(err error) {
@@ -284,7 +285,13 @@ func (e *env) readSet(final string) (files []string, tables []string, ok bool) {
 		case map[string]any:
 			switch v["type"] {
 			case "TABLE_FUNCTION":
-				strs(v["function"], &files)
+				name := ""
+				if fm, _ := v["function"].(map[string]any); fm != nil {
+					name, _ = fm["function_name"].(string)
+				}
+				if e.isFileReader(name) {
+					strs(v["function"], &files)
+				}
 			case "BASE_TABLE":
 				name, _ := v["table_name"].(string)
 				schema, _ := v["schema_name"].(string)
@@ -304,6 +311,35 @@ func (e *env) readSet(final string) (files []string, tables []string, ok bool) {
 	}
 	walk(tree)
 	return files, tables, true
+}
+
+// isFileReader: does the table function `fn` open files named by its first argument? Decided by probing
+// the un-sandboxed side connection with a path that does not exist (a reader fails with an IO /
+// "No files found" error, anything else succeeds or fails to bind). Cached per name.
+func (e *env) isFileReader(fn string) bool {
+	fn = strings.ToLower(fn)
+	if v, ok := e.readerCache[fn]; ok {
+		return v
+	}
+	if e.readerCache == nil {
+		e.readerCache = map[string]bool{}
+	}
+	missing := e.tmp + "/__c14_missing__/x.parquet"
+	res := false
+	for _, arg := range []string{"'" + missing + "'", "['" + missing + "']"} {
+		rows, err := e.raw.Query("SELECT * FROM \"" + fn + "\"(" + arg + ") LIMIT 0")
+		if err == nil {
+			rows.Close()
+			break
+		}
+		m := err.Error()
+		if strings.Contains(m, "No files found") || strings.Contains(m, "IO Error") || strings.Contains(m, "Cannot open") || strings.Contains(m, "No such file") || strings.Contains(m, "does not exist") && !strings.Contains(m, "Catalog Error") {
+			res = true
+			break
+		}
+	}
+	e.readerCache[fn] = res
+	return res
 }
 
 // touched maps path / glob texts to the (database, measurement) directories under the storage root
